@@ -12,6 +12,23 @@ import yamlfs
 from yamlfs import DIR
 
 from vinegar.data_source.yaml_target import YamlTargetSource
+from vinegar.utils.cache import LRUCache
+
+LRU_KEYS = ["a", "b", "c"]
+
+
+def run_lru(c):
+    cache = LRUCache(cache_size=c["cap"])
+    out = []
+    for op in c["ops"]:
+        if op[0] == "get":
+            v = cache.get(op[1], None)
+            r = [] if v is None else [v]
+        else:
+            cache[op[1]] = op[2]
+            r = []
+        out.append([r, [k in cache for k in LRU_KEYS]])
+    return out
 
 CURRENT_VARIANTS = [1, 0, 1]
 
@@ -210,6 +227,13 @@ class C12(Check):
     ]
 
     def gen(self, tier, rng):
+        # the LRU cache alone: every get/set sequence over three keys
+        lops = [("get", k) for k in LRU_KEYS] + [("set", k, None) for k in LRU_KEYS]
+        for n in range(1, 5 if tier == "quick" else 7):
+            for seq in itertools.product(lops, repeat=n):
+                for cap in (1, 2, 3):
+                    yield {"kind": "lru", "cap": cap,
+                           "ops": [(o[0], o[1]) if o[0] == "get" else ("set", o[1], 10 * i + 1) for i, o in enumerate(seq)]}
         base, ops = d13_history()
         for cs in (64, 1, 0):
             yield {"base": base, "ops": ops, "cache_size": cs, "engine": False, "ml": False, "ms": True, "allow_empty": False}
@@ -253,9 +277,14 @@ class C12(Check):
                    "ms": rng.random() < 0.8, "allow_empty": rng.random() < 0.3}
 
     def impl(self, c):
+        if c.get("kind") == "lru":
+            return run_lru(c)
         return run_real(c)
 
     def line(self, c, o):
+        if c.get("kind") == "lru":
+            ops = [[0, op[1]] if op[0] == "get" else [1, op[1], op[2]] for op in c["ops"]]
+            return sx([7, c["cap"], LRU_KEYS, ops, o])
         yl = {}
         calls = []
         for (tree, pd, pv, sysid) in snapshots(c):
@@ -269,6 +298,9 @@ class C12(Check):
         res = super().evaluate(cases)
         out = []
         for (c, o, m, fm, fi, rest) in res:
+            if c.get("kind") == "lru":
+                out.append((c, o, m, fm, fi, rest))
+                continue
             for pair in m:
                 for x in pair:
                     if x[0] == 1 and x[1] in (101, 177):
@@ -289,10 +321,14 @@ class C12(Check):
         return out
 
     def canon(self, o):
+        if o and isinstance(o[0], list):
+            return unsx(sx(o))
         x = unsx(sx(canon_versions(o)))
         return [[norm_gres(a), norm_gres(b)] for a, b in x]
 
     def nontrivial(self, c, o):
+        if c.get("kind") == "lru":
+            return None
         gets = sum(1 for op in c["ops"] if op[0] == "get")
         muts = sum(1 for op in c["ops"] if op[0] != "get")
         if gets >= 2 and muts >= 1:
@@ -300,10 +336,16 @@ class C12(Check):
         return None
 
     def show(self, c):
+        if c.get("kind") == "lru":
+            return {"kind": "lru", "cache_size": c["cap"], "ops": [list(o) for o in c["ops"]]}
         return {"base": c["base"], "ops": [list(op) for op in c["ops"]], "cache_size": c["cache_size"], "engine": c["engine"],
                 "merge_lists": c["ml"], "merge_sets": c["ms"], "allow_empty_top": c["allow_empty"]}
 
     def shrink(self, c):
+        if c.get("kind") == "lru":
+            for i in range(len(c["ops"])):
+                yield dict(c, ops=c["ops"][:i] + c["ops"][i + 1:])
+            return
         ops = c["ops"]
         for i in range(len(ops)):
             yield dict(c, ops=ops[:i] + ops[i + 1:])
